@@ -440,6 +440,7 @@ template <class Ch, size_t Chunk> static std::string encReadWith(const vh::Case&
 	if (c.get("src", "sstream") == "sstream") sb = std::make_unique<std::stringbuf>(doc, std::ios::in);
 	else sb = std::make_unique<vh::SlowBuf>(doc, size_t(c.geti("step", 7)));
 	std::istream is(sb.get());
+	is.ignore(static_cast<std::streamsize>(c.geti("pre", 0)));      // consumed preamble: the text starts at a non-zero stream position
 	U::CEncodedStreamReader<Ch, Chunk> reader(is, pol);
 	std::basic_string<Ch> out;
 	std::string seq;
@@ -495,12 +496,17 @@ static std::string opDetect(const vh::Case& c) {
 	std::string doc = c.bytes("doc");
 	size_t off = 0;
 	auto t = U::DetectEncoding(std::string_view(doc), off);
-	std::istringstream is(doc);
+	// the stream may already stand behind a consumed preamble of `pre` bytes
+	size_t pre = size_t(c.geti("pre", 0));
+	std::string whole = std::string(pre, '#') + doc;
+	std::istringstream is(whole);
+	is.ignore(static_cast<std::streamsize>(pre));
 	auto t2 = U::DetectEncoding(is, true);
-	long long posSkip = static_cast<long long>(is.tellg());
-	std::istringstream is2(doc);
+	long long posSkip = static_cast<long long>(is.tellg()) - static_cast<long long>(pre);
+	std::istringstream is2(whole);
+	is2.ignore(static_cast<std::streamsize>(pre));
 	auto t3 = U::DetectEncoding(is2, false);
-	long long posKeep = static_cast<long long>(is2.tellg());
+	long long posKeep = static_cast<long long>(is2.tellg()) - static_cast<long long>(pre);
 	return vh::JObj().str("id", c.get("id")).str("type", EncName[int(t)]).num("offset", (long long)off).str("stream_type", EncName[int(t2)]).num("stream_pos", posSkip)
 		.str("stream_type_keep", EncName[int(t3)]).num("stream_pos_keep", posKeep).boolean("stream_good", is.good()).done();
 }
